@@ -733,6 +733,73 @@ func c06Run(env *core.Env, idx int) *core.CaseResult {
 			break
 		}
 	}
+	// numeric literals of the other numeric type: a FLOAT column compared with an integer literal, an INT column with a decimal
+	// literal (both are forms the SQL front end parses). Meaning: numeric comparison. Listed finding on the pinned tree.
+	if idx%10 == 3 && !s.dead {
+		for j, c := range cols {
+			if c.K == rm.KStr {
+				continue
+			}
+			lit, litF := "", 0.0
+			if c.K == rm.KFloat {
+				n := r.Intn(12)
+				lit, litF = fmt.Sprintf("%d", n), float64(n)
+			} else {
+				n := float64(r.Intn(40))/4 + 0.5
+				lit, litF = fmt.Sprintf("%g", n), n
+				if !strings.Contains(lit, ".") {
+					lit += ".5"
+					litF += 0.5
+				}
+			}
+			op := []string{">=", "<=", "=", ">", "<"}[r.Intn(5)]
+			sql := fmt.Sprintf("SELECT %s FROM %s WHERE %s %s %s;", cols[0].Name, s.t.Name, c.Name, op, lit)
+			var want []rm.Row
+			for _, row := range s.t.Rows {
+				if row[j].Null {
+					continue
+				}
+				v := float64(row[j].I)
+				if c.K == rm.KFloat {
+					v = float64(row[j].F)
+				}
+				ok := false
+				switch op {
+				case ">=":
+					ok = v >= litF
+				case "<=":
+					ok = v <= litF
+				case "=":
+					ok = v == litF
+				case ">":
+					ok = v > litF
+				default:
+					ok = v < litF
+				}
+				if ok {
+					want = append(want, rm.Row{row[0]})
+				}
+			}
+			var rr sqlx.Result
+			msg, panicked := guarded(func() { rr = s.db.Auto(sql) })
+			res.Add("statements_with_numeric_literal_of_the_other_type", 1)
+			tags := []string{"numeric-literal-of-other-type", "via-" + s.via}
+			switch {
+			case panicked:
+				res.Violate("panic", tags, s.caseDesc(sql, nil), "%s panicked: %s", sql, clipStr(msg, 300))
+				s.dead = true
+			case rr.Err != nil || rr.Aborted:
+				res.Violate("abort", tags, s.caseDesc(sql, nil), "%s failed: err=%v aborted=%v", sql, rr.Err, rr.Aborted)
+			default:
+				if d := rm.DiffMultiset(rr.Rows, want, nil); d != "" {
+					res.Violate("wrong-answer-"+rm.DiffKind(rr.Rows, want, nil), tags, s.caseDesc(sql, nil), "%s: %s", sql, d)
+				}
+			}
+			if s.dead {
+				break
+			}
+		}
+	}
 	// stale statistics: table changed since the last statistics pass
 	stmts = stmts[:len(stmts)/2]
 	runSelects("stale-stats")
